@@ -222,8 +222,10 @@ OuterLoop:
 
 			url.Init()
 			rl.bindPolicyToURL(url)
+			// share the rate limiter with the previous generation instead of
+			// moving it: requests still running on the previous generation
+			// must be able to use it.
 			url.rl = prev.rl
-			prev.rl = nil
 			rl.setStateListenerForURL(url)
 			continue OuterLoop
 		}
